@@ -259,6 +259,9 @@ def check_readback(rep, repo):
     # canonical form: ' '.join(scatter of str(projectID) at student_index over ['0'] * num_students), whatever the construction
     from ..canon import canon, equiv, replace, closed
     from .c11 import ref_matching_array, PA
+    # the argument is the list of matched pairs, never None (a helper with an optional parameter tests for that)
+    pa_ = S(f.params[1])
+    rv = simp_top(refine(rv, {CMP('Is', pa_, NONE): False, CMP('Eq', pa_, NONE): False, CMP('IsNot', pa_, NONE): True, CMP('NotEq', pa_, NONE): True}))
     got_c = canon(rv)
     while got_c[0] == 'fstr' and len(got_c[1]) == 1:
         got_c = got_c[1][0]
